@@ -239,37 +239,56 @@ pub mod hash_oracle {
         pub w: [u64; KW],
     }
 
-    static mut N: usize = 0;
-    static mut KEYS: [Key; CAP] = [Key { kind: 0, len: 0, w: [0; KW] }; CAP];
-    static mut OUTS: [[u64; 4]; CAP] = [[0; 4]; CAP];
-    static mut RAWS: [[u64; 4]; CAP] = [[0; 4]; CAP];
-    static mut NRAW: usize = 0;
-    /// `E[h]` as words; filled by `set_empty_roots`.
-    static mut EMPTY: [[u64; 4]; 32] = [[0; 4]; 32];
-    /// How many levels of the `E` recurrence the oracle honours (keeps the formula small).
-    static mut EMPTY_LEVELS: usize = 0;
-    /// Candidate fresh outputs, drawn by the harness up-front (`draw_hash_tape`) so that the
-    /// sequence of `any()` draws is the same symbolically and in native replay.
-    static mut TAPE: [[u64; 4]; CAP] = [[0; 4]; CAP];
-    static mut TAPE_LEN: usize = 0;
+    /// All ghost state lives in ONE static whose first field is a unique magic value.
+    /// Kani 0.68 de-duplicates constant allocations by content and may pick a `static mut`
+    /// with a common initialiser (e.g. `0usize`) as the backing object of an unrelated
+    /// constant of std; a single allocation with unique bytes cannot be merged with anything.
+    struct Ghost {
+        magic: [u64; 2],
+        n: usize,
+        keys: [Key; CAP],
+        outs: [[u64; 4]; CAP],
+        raws: [[u64; 4]; CAP],
+        nraw: usize,
+        /// `E[h]` as words; filled by `set_empty_roots`.
+        empty: [[u64; 4]; 32],
+        /// How many levels of the `E` recurrence the oracle honours (keeps the formula small).
+        empty_levels: usize,
+        /// Candidate fresh outputs, drawn by the harness up-front (`draw_hash_tape`) so that the
+        /// sequence of `any()` draws is the same symbolically and in native replay.
+        tape: [[u64; 4]; CAP],
+        tape_len: usize,
+    }
+    static mut G: Ghost = Ghost {
+        magic: [0x5eed_c15a_11ce_0001, 0x9e37_79b9_7f4a_7c15],
+        n: 0,
+        keys: [Key { kind: 0, len: 0, w: [0; KW] }; CAP],
+        outs: [[0; 4]; CAP],
+        raws: [[0; 4]; CAP],
+        nraw: 0,
+        empty: [[0; 4]; 32],
+        empty_levels: 0,
+        tape: [[0; 4]; CAP],
+        tape_len: 0,
+    };
 
     pub fn set_tape(i: usize, w: [u64; 4]) {
         unsafe {
-            TAPE[i] = w;
-            if i + 1 > TAPE_LEN {
-                TAPE_LEN = i + 1;
+            G.tape[i] = w;
+            if i + 1 > G.tape_len {
+                G.tape_len = i + 1;
             }
         }
     }
 
     pub fn set_empty_roots(e: &[[u64; 4]; 32], levels: usize) {
         unsafe {
-            EMPTY = *e;
-            EMPTY_LEVELS = levels;
+            G.empty = *e;
+            G.empty_levels = levels;
         }
     }
     pub fn calls() -> usize {
-        unsafe { N }
+        unsafe { G.n }
     }
 
     /// Registers an attacker-chosen 32-byte value: it is not the output of any oracle
@@ -277,13 +296,13 @@ pub mod hash_oracle {
     pub fn register_raw(w: [u64; 4]) {
         unsafe {
             let mut j = 0;
-            while j < N {
-                assume(!words_eq(&OUTS[j], &w));
+            while j < G.n {
+                assume(!words_eq(&G.outs[j], &w));
                 j += 1;
             }
-            assert!(NRAW < CAP, "VS-UNSUPPORTED: raw registry full");
-            RAWS[NRAW] = w;
-            NRAW += 1;
+            assert!(G.nraw < CAP, "VS-UNSUPPORTED: raw registry full");
+            G.raws[G.nraw] = w;
+            G.nraw += 1;
         }
     }
 
@@ -301,22 +320,22 @@ pub mod hash_oracle {
         unsafe {
             // consistency with the empty-subtree constants
             if key.kind == 0 && key.len == 0 {
-                return EMPTY[0];
+                return G.empty[0];
             }
-            let k = N;
-            assert!(k < CAP && k < TAPE_LEN, "VS-UNSUPPORTED: hash oracle table full");
-            N += 1;
-            KEYS[k] = key;
-            let fresh = TAPE[k];
+            let k = G.n;
+            assert!(k < CAP && k < G.tape_len, "VS-UNSUPPORTED: hash oracle table full");
+            G.n += 1;
+            G.keys[k] = key;
+            let fresh = G.tape[k];
             let mut out = fresh;
             let mut found = false;
             if key.kind == 1 {
                 let l = [key.w[0], key.w[1], key.w[2], key.w[3]];
                 let r = [key.w[4], key.w[5], key.w[6], key.w[7]];
                 let mut h = 0;
-                while h < EMPTY_LEVELS {
-                    if !found && words_eq(&l, &EMPTY[h]) && words_eq(&r, &EMPTY[h]) {
-                        out = EMPTY[h + 1];
+                while h < G.empty_levels {
+                    if !found && words_eq(&l, &G.empty[h]) && words_eq(&r, &G.empty[h]) {
+                        out = G.empty[h + 1];
                         found = true;
                     }
                     h += 1;
@@ -324,8 +343,8 @@ pub mod hash_oracle {
             }
             let mut j = 0;
             while j < k {
-                if !found && key_eq(&KEYS[j], &key) {
-                    out = OUTS[j];
+                if !found && key_eq(&G.keys[j], &key) {
+                    out = G.outs[j];
                     found = true;
                 }
                 j += 1;
@@ -333,21 +352,21 @@ pub mod hash_oracle {
             if !found {
                 let mut j = 0;
                 while j < k {
-                    assume(!words_eq(&OUTS[j], &fresh));
+                    assume(!words_eq(&G.outs[j], &fresh));
                     j += 1;
                 }
                 let mut h = 0;
                 while h < 32 {
-                    assume(!words_eq(&EMPTY[h], &fresh));
+                    assume(!words_eq(&G.empty[h], &fresh));
                     h += 1;
                 }
                 let mut r = 0;
-                while r < NRAW {
-                    assume(!words_eq(&RAWS[r], &fresh));
+                while r < G.nraw {
+                    assume(!words_eq(&G.raws[r], &fresh));
                     r += 1;
                 }
             }
-            OUTS[k] = out;
+            G.outs[k] = out;
             out
         }
     }
